@@ -1,5 +1,7 @@
 """C02 — extends / isOrExtends = reachability over the current bases, after any rebasing."""
+import os
 from .. import common as C
+from ..translate import specgraph as TR
 
 ID = "C02"
 COQ_TARGETS = ["Tie/C02.vo", "Properties/C02.vo"]
@@ -11,7 +13,27 @@ THEOREMS = [
     "C02_implied_iff_reachable", "C02_extends_strict", "C02_extends_nonstrict", "C02_sro_members", "C02_sro_nodup",
     "C02_sro_coherent", "C02_fresh_fuel_irrelevant", "C02_iro_is_interface_part",
     "C02_dependents_complete", "C02_notification_order_irrelevant", "C02_acyclicb_sound", "C02_acyclicb_complete", "C02_op_ok_complete",
+    "C02_generated_subscribe_eq_model", "C02_generated_unsubscribe_eq_model", "C02_generated_calculate_sro_eq_model",
+    "C02_generated_changed_step_eq_model", "C02_generated_changed_eq_model", "C02_generated_setBases_eq_model",
+    "C02_generated_queries_eq_model", "C02_state_equiv_same_answers",
+    "C02_unique_keys_is_model", "C02_equal_keys_refuted",
 ]
+INTERFACE_PY = os.path.join(C.REPO, "src", "zope", "interface", "interface.py")
+GEN = os.path.join(C.COQ, "Gen", "SpecGraphKernel.v")
+
+
+def regenerate(run):
+    """Re-translate class Specification (subscribe, unsubscribe, __setBases, _calculate_sro, changed,
+    isOrExtends, extends) into coq/Gen/SpecGraphKernel.v (fail closed)."""
+    try:
+        C.write_if_changed(GEN, TR.translate_file(INTERFACE_PY))
+        return []
+    except Exception as e:  # noqa: refuse, report, keep the pipeline alive on the pinned kernel
+        C.write_if_changed(GEN, TR.pinned())
+        return ["harness/translate/specgraph.py refused %s (%s: %s); coq/Gen/SpecGraphKernel.v holds the pinned "
+                "kernel, so the C02_generated_* theorems of Properties/C02.v are NOT about the current source"
+                % (INTERFACE_PY, type(e).__name__, e)]
+
 RULE = ("histories of 3-25 operations over real InterfaceClass / Declaration / implementedBy(cls) / "
         "providedBy(ob) / providedBy(cls) objects with __bases__ reassignments at every kind of node, "
         "classImplements and garbage collection of leaves; after every operation all pairs are queried. "
@@ -19,8 +41,11 @@ RULE = ("histories of 3-25 operations over real InterfaceClass / Declaration / i
         "levels of dependents while the graph contains a diamond or a node with two dependents; distinct = "
         "distinct (kinds present, node-count bucket, #rebases bucket, deepest rebased dependents level, "
         "inconsistent C3 order / legacy fallback met?) signature")
-TRUSTED_BASE = ["Model/Ro.v transcription of ro.py / _calculate_sro (owned by C03, validated here by the "
-                "__sro__ comparison on every step)"]
+TRUSTED_BASE = ["Model/Ro.v transcription of ro.py (owned by C03, validated here by the __sro__ comparison on every step)",
+                "harness/translate/specgraph.py and the primitives of Model/SpecGraphPrim.v (reading of dict operations, "
+                "attribute writes and the ro.ro call; _implied read as a key set; KeyError not propagated; fuel and "
+                "dictionary order are not in the source)",
+                "not generated: Specification.__init__ (new_spec), the weak-reference death (drop), Model/Ro.v"]
 ASSUMPTIONS = ["(__name__, __module__) keys are unique among live interfaces (finding F10 is outside this check)",
                "the base graph stays acyclic (the real code recurses without bound on a cycle)",
                "class __bases__ are never reassigned; ZOPE_INTERFACE_STRICT_IRO / USE_LEGACY_IRO unset"]
@@ -390,8 +415,53 @@ def kind(case, obs):
     return "no rebase"
 
 
+F10_KEY = "F10-equal-name-module-twins-share-dependents-entry"
+
+
 def finding_key(case, obs, mode):
-    return None
+    """The known finding F10, and nothing else: the case is of the twins stream, two live interfaces
+    really have an equal (__name__, __module__) key, and after every step every row that differs
+    from what a freshly built graph of the same shape answers (membership read modulo key equality,
+    as the dictionaries do) belongs to a later-created twin or to one of its descendants."""
+    if not case.get("twins") or "exc" in obs:
+        return None
+    rows, seen_twins, seen_bad, iface = {}, False, False, set()
+    for st in obs.get("steps", []):
+        iface |= {p[1] for p in st["ops"] if p[0] == "new" and p[2] == "iface"}
+        for i in st["gone"]:
+            rows.pop(i, None)
+        for r in st["rows"]:
+            rows[r[0]] = r
+        keys, fresh = st.get("keys"), st.get("fresh")
+        if keys is None or fresh is None:
+            return None
+        key = {int(i): tuple(k) for i, k in keys.items()}
+        fresh = {int(i): v for i, v in fresh.items()}
+        ids = sorted(rows)
+        if sorted(key) != ids or sorted(fresh) != ids:
+            return None
+        later = {i for i in ids if any(j < i and key[j] == key[i] for j in ids)}
+        seen_twins = seen_twins or bool(later)
+        # descendants of the later twins over the observed bases
+        tainted = set(later)
+        grew = True
+        while grew:
+            grew = False
+            for i in ids:
+                if i not in tainted and any(b in tainted for b in rows[i][1]):
+                    tainted.add(i)
+                    grew = True
+        for i in ids:
+            _i, bs, sro, iro, ioe, ext, extns, prov = rows[i]
+            want_ioe = [t for t in ids if any(key[a] == key[t] for a in fresh[i])]
+            want_ext = [t for t in want_ioe if key[t] != key[i]]
+            ok = (sro == fresh[i] and iro == [a for a in fresh[i] if a in iface] and ioe == want_ioe and ext == want_ext
+                  and extns == want_ioe and prov is None)
+            if not ok:
+                if i not in tainted:
+                    return None
+                seen_bad = True
+    return F10_KEY if (seen_twins and seen_bad) else None
 
 
 def replay_text(case, obs, mode):
@@ -436,7 +506,9 @@ def replay_text(case, obs, mode):
 
 
 TECHNIQUE = ("Coq proof by induction over operation histories of a Gallina model of Specification.__setBases / "
-             "changed / dependents; vm_compute correspondence with both implementations after every operation; "
+             "changed / dependents; the kernel (subscribe, unsubscribe, __setBases, _calculate_sro, changed, isOrExtends, "
+             "extends) is regenerated from the source text by a fail-closed translator and proved equal to the model; "
+             "vm_compute correspondence with both implementations after every operation; "
              "independent reachability + fresh-graph oracle in Coq")
 LEVEL_TEXT = ("Machine-checked theorems (Properties/C02.v, closed under the global context) state, for every history "
               "of creations, __bases__ reassignments at any node and deaths of leaves that keeps the base graph "
